@@ -8,6 +8,7 @@ import (
 	"fmt"
 	"os"
 	"sort"
+	"strconv"
 	"sync"
 	"syscall"
 	"time"
@@ -46,6 +47,8 @@ type netResult struct {
 	Srv  []srvObs `json:"srv,omitempty"`
 	Ver  []verObs `json:"ver,omitempty"`
 	Lim  []int    `json:"lim,omitempty"` // round-major, peer-minor
+	St   []stObs  `json:"st,omitempty"`
+	Env  *stEnv   `json:"env,omitempty"`
 	Tip  int64    `json:"tip,omitempty"`
 	Done bool     `json:"done,omitempty"`
 	Dead bool     `json:"dead,omitempty"`
@@ -80,14 +83,22 @@ func netFail(err error) {
 }
 
 func netChildMain() {
-	_ = syscall.Setrlimit(syscall.RLIMIT_AS, &syscall.Rlimit{Cur: rlimitAS, Max: rlimitAS})
+	lim := uint64(rlimitAS)
+	if gb, err := strconv.Atoi(os.Getenv("HC33_RLIMIT_GB")); err == nil && gb > 0 { // experiments only
+		lim = uint64(gb) << 30
+	}
+	_ = syscall.Setrlimit(syscall.RLIMIT_AS, &syscall.Rlimit{Cur: lim, Max: lim})
 	netOut = bufio.NewWriter(os.Stdout)
 	var b netBatch
 	if err := json.NewDecoder(os.Stdin).Decode(&b); err != nil {
 		netFail(err)
 	}
 	var w *netWorld
+	var senv *stEnv
+	cleanup := func() {}
 	switch b.Mode {
+	case "store":
+		w, senv, cleanup = newStoreWorld()
 	case "srvlive":
 		mock := testnode.New("", nil)
 		discardLogs()
@@ -111,10 +122,22 @@ func netChildMain() {
 			err = w.runVer(c, &res)
 		case "lim":
 			err = w.runLim(c, &res)
+		case "store":
+			var stuck bool
+			stuck, err = w.runStore(c, &res, senv)
+			if stuck && err == nil {
+				// the routing table is blocked for good: the rest of the batch needs a fresh child
+				res.Done = true
+				res.Ms = time.Since(t0).Milliseconds()
+				netSay("R", res)
+				cleanup()
+				os.Exit(4)
+			}
 		default:
 			err = fmt.Errorf("case kind %q", c.Net)
 		}
 		if err != nil {
+			cleanup()
 			netFail(fmt.Errorf("case %d (%s): %v", i, c.Net, err))
 		}
 		res.Done = true
@@ -122,6 +145,7 @@ func netChildMain() {
 		netSay("R", res)
 	}
 	netSay("END", 0)
+	cleanup()
 	os.Exit(0)
 }
 
